@@ -247,26 +247,40 @@ def optOr (o : Option Int) (d : Int) : Int :=
   | some x => x
   | none => d
 
-def okQueryByPosition (src : Source) (q : PosQ) (ans : Ans) : Bool :=
+/-- what the property demands of an answer -/
+inductive Expect where
+  | reject                      -- `InvalidQueryError`
+  | result (r : Result)         -- this collection (as a set of members)
+  | rejectOrEmpty               -- a rejection or a collection without members
+  | emptyResult                 -- a collection without members
+  deriving Repr, Inhabited
+
+def meets (x : Expect) (ans : Ans) : Bool :=
+  match x with
+  | .reject => ans == .rejected
+  | .result r => (match ans with | .ok a => a.norm == r.norm | _ => false)
+  | .rejectOrEmpty => ans == .rejected || (match ans with | .ok a => a.children.isEmpty | _ => false)
+  | .emptyResult => (match ans with | .ok a => a.children.isEmpty | _ => false)
+
+def expectQueryByPosition (src : Source) (q : PosQ) : Expect :=
   match specBounds src with
   | none =>
       -- a collection without bounds (empty, no parent) contains no range: an explicit range must be rejected;
       -- without a range either a rejection or an empty result is accepted
       match q.s, q.e with
-      | none, none => ans == .rejected || (match ans with | .ok r => r.children.isEmpty | _ => false)
-      | _, _ => ans == .rejected
+      | none, none => .rejectOrEmpty
+      | _, _ => .reject
   | some (bs, be) =>
       let s := optOr q.s bs
       let e := optOr q.e be
-      if ¬ validRange bs be s e then ans == .rejected
+      if ¬ validRange bs be s e then .reject
       else
         let kept := specFilter src.children q.codingOnly q.cw s e
         let (ns, ne) := resultBounds q s e kept
-        if src.par.hasSeq ∧ (ns < bs ∨ be < ne) then ans == .rejected
-        else
-          match ans with
-          | .ok r => r.norm == (expectResult src ns ne kept).norm
-          | _ => false
+        if src.par.hasSeq ∧ (ns < bs ∨ be < ne) then .reject
+        else .result (expectResult src ns ne kept)
+
+def okQueryByPosition (src : Source) (q : PosQ) (ans : Ans) : Bool := meets (expectQueryByPosition src q) ans
 
 /-! ### identifier / GUID queries (set-builder specifications) -/
 
@@ -276,14 +290,14 @@ def idBounds (bs be : Int) (kept : List Child) : Int × Int :=
   | some h => h
   | none => (bs, be)
 
-def okIdResult (src : Source) (kept : List Child) (ans : Ans) : Bool :=
+def expectIdResult (src : Source) (kept : List Child) : Expect :=
   match specBounds src with
-  | none => (match ans with | .ok r => r.children.isEmpty | _ => false)
+  | none => .emptyResult
   | some (bs, be) =>
       let (ns, ne) := idBounds bs be kept
-      match ans with
-      | .ok r => r.norm == (expectResult src ns ne kept).norm
-      | _ => false
+      .result (expectResult src ns ne kept)
+
+def okIdResult (src : Source) (kept : List Child) (ans : Ans) : Bool := meets (expectIdResult src kept) ans
 
 /-- `query_by_guids`: { c | c.guid ∈ ids } -/
 def keptByGuids (src : Source) (ids : List Nat) : List Child :=
